@@ -1,0 +1,23 @@
+//go:build verif
+// +build verif
+
+package api
+
+// Add-only verification hooks for property C14 (thin wrappers, no logic).
+
+import (
+	"github.com/evanw/esbuild/internal/compat"
+	"github.com/evanw/esbuild/internal/logger"
+)
+
+// VerifC14ValidateFeatures exposes validateFeatures (JS half and target text).
+func VerifC14ValidateFeatures(log logger.Log, target Target, engines []Engine) (compat.JSFeature, string) {
+	js, _, _, env := validateFeatures(log, target, engines)
+	return js, env
+}
+
+// VerifC14ValidateSupported exposes validateSupported (JS half).
+func VerifC14ValidateSupported(log logger.Log, supported map[string]bool) (compat.JSFeature, compat.JSFeature) {
+	js, mask, _, _ := validateSupported(log, supported)
+	return js, mask
+}
